@@ -25,9 +25,12 @@ def build_conn(cd):
     s = suites()[cd["suite"]]
     c = TlsConn(cd["ver"], s, seed=cd.get("seed", 0), **cd.get("shape", {}))
     tick = set(cd.get("tickets13", ()))
+    alerts = {int(k): v for k, v in (cd.get("alert_at") or {}).items()}
     for i, a in enumerate(cd.get("app", ())):
         if i in tick and cd["ver"] == R.TLS13:
             c.ticket13()
+        if i in alerts:                     # e.g. a half-close: close_notify of one side while the other still sends
+            c.alert(alerts[i][0], alerts[i][1], 0)
         c.app(a[0], a[1], pad13=a[2] if len(a) > 2 else None)
     if cd.get("alert_end"):
         lvl = 1 if cd["alert_end"] == "warning" else 2
@@ -97,6 +100,18 @@ def build_tls_capture(sc):
         isns.append(tuple(cd.get("isn", (1000 + 77 * i, 5000 + 131 * i))))
     cap = tcp_capture(conns, flows, order=sc.get("order"), isns=isns, seglists=seglists,
                       cap=Capture(ts0=sc.get("ts0", 1_700_000_000_123_456), step=sc.get("step", 1_237)))
+    if sc.get("tsjitter"):
+        # capture files need not be chronological (merged interfaces, clock steps): file order is what counts.
+        # every packet gets a distinct time, locally out of order with respect to its neighbours
+        import random as _r
+        rng = _r.Random(sc["tsjitter"])
+        n = len(cap.pkts)
+        slots = list(range(n))
+        for i in range(0, n - 1, 1):
+            if rng.random() < 0.4:
+                j = min(n - 1, i + rng.randint(1, 3))
+                slots[i], slots[j] = slots[j], slots[i]
+        cap.pkts = [(cap.ts0 + slots[i] * cap.step, fr) for i, (_t, fr) in enumerate(cap.pkts)]
     keylog = [l for c in conns for l in c.keylog]
     return cap, keylog, conns, flows
 
